@@ -1231,6 +1231,32 @@ class Frame:
                 del self.env[k]
         return out
 
+    def e_NamedExpr(self, n: ast.NamedExpr) -> Any:
+        v = self.eval(n.value)
+        self.assign(n.target, v)
+        return v
+
+    def e_DictComp(self, n: ast.DictComp) -> Any:
+        d = HDict()
+        saved = dict(self.env)
+
+        def rec(i: int) -> None:
+            if i == len(n.generators):
+                k = self.eval(n.key)
+                d[k.concrete() if isinstance(k, SStr) and k.is_concrete() else k] = self.eval(n.value)
+                return
+            g = n.generators[i]
+            for item in self.iterate(self.eval(g.iter)):
+                self.assign(g.target, item)
+                if all(self.truth(self.eval(c), norm(c)) for c in g.ifs):
+                    rec(i + 1)
+
+        rec(0)
+        for k in list(self.env):
+            if k not in saved:
+                del self.env[k]
+        return d
+
     def e_Lambda(self, n: ast.Lambda) -> Any:
         return FuncRef(None, builtin="lambda", self_obj=(self, n))
 
